@@ -78,11 +78,12 @@ type wsconcWorld struct {
 	readBusy bool
 	keep     [][]byte
 
-	peerEnds []int // cumulative end offset of every frame the peer has sent
-	peerSent int
-	peerFrag bool // the peer's last data frame was not final
-	rxBytes  int  // bytes the adapter has read
-	rxFrames int  // peer frames completely read by the adapter
+	peerEnds  []int // cumulative end offset of every frame the peer has sent
+	peerSent  int
+	peerFrag  bool // the peer's last data frame was not final
+	peerClose bool // the peer has sent a Close frame: a conforming peer sends nothing after it, and neither does finish()
+	rxBytes   int  // bytes the adapter has read
+	rxFrames  int  // peer frames completely read by the adapter
 
 	txBytes int    // bytes the client's kernel has accepted
 	rxPeer  int    // bytes the peer has read
@@ -368,6 +369,9 @@ func (lw *wsconcWorld) exec(f []string) {
 		if op <= 2 {
 			lw.peerFrag = !fin
 		}
+		if op == 8 {
+			lw.peerClose = true
+		}
 		lw.ev("peer seq=%d %s", len(lw.peerEnds)-1, strings.Join(f[1:], " "))
 		waitReady(lw.cfd, unix.POLLIN, 200)
 	case "peereof":
@@ -484,7 +488,7 @@ func (lw *wsconcWorld) finish() {
 				// for itself shows only in the loop's pending count)
 				break
 			}
-			if lw.readBusy && !lw.peerEOF && idle >= 1 && lw.rxFrames == len(lw.peerEnds) {
+			if lw.readBusy && !lw.peerEOF && !lw.peerClose && idle >= 1 && lw.rxFrames == len(lw.peerEnds) {
 				if lw.peerFrag {
 					lw.exec([]string{"peer", "1", "0", "0", "0", "7a"})
 				} else {
